@@ -13,13 +13,26 @@ TINY := -DDISPENSO_TUNE_WAKE_GROUP_SIZE=2 -DDISPENSO_TUNE_STEAL_RING_SHARING=2 -
 
 DISP_SRCS := $(filter-out $(REPO)/dispenso/fast_math/%,$(wildcard $(REPO)/dispenso/*.cpp) $(wildcard $(REPO)/dispenso/detail/*.cpp))
 WL_SRCS := $(wildcard harness/w_*.cpp)
-RT_SRCS := simrt/simrt.cpp simrt/tsan_shim.cpp harness/main.cpp
+RT_SRCS := simrt/simrt.cpp simrt/tsan_shim.cpp simrt/san_options.cpp harness/main.cpp
 
-VARIANTS := sim-default sim-tiny
+ASANFLAGS := -fsanitize=address,undefined -fno-sanitize-recover=all -fno-omit-frame-pointer \
+             -fsanitize-coverage=trace-pc-guard -fsanitize-coverage-ignorelist=simrt/cov_ignorelist.txt
+# fine-*: the tsan pass also instruments plain memory accesses (they become simulation points)
+FINEPASS := -fno-inline -fsanitize=thread -mllvm -tsan-instrument-func-entry-exit=0 -mllvm -tsan-instrument-memintrinsics=0
+VARIANTS := sim-default sim-tiny fine-default asan-default asan-nosba
 FLAGS_sim-default := $(TSANPASS)
 FLAGS_sim-tiny := $(TSANPASS) $(TINY)
+FLAGS_fine-default := $(FINEPASS)
+FLAGS_asan-default := $(ASANFLAGS)
+FLAGS_asan-nosba := $(ASANFLAGS) $(TINY) -DDISPENSO_NO_SMALL_BUFFER_ALLOCATOR
+LINK_sim-default :=
+LINK_sim-tiny :=
+LINK_fine-default :=
+LINK_asan-default := -fsanitize=address,undefined
+LINK_asan-nosba := -fsanitize=address,undefined
 
 all: $(foreach v,$(VARIANTS),$(B)/$(v)/simcheck)
+sim: $(B)/sim-default/simcheck $(B)/sim-tiny/simcheck
 
 define VARIANT_RULES
 $(B)/$(1)/disp/%.o: $(REPO)/dispenso/%.cpp
@@ -35,7 +48,7 @@ OBJS_$(1) := $$(patsubst $(REPO)/dispenso/%.cpp,$(B)/$(1)/disp/%.o,$(DISP_SRCS))
              $$(patsubst harness/%.cpp,$(B)/$(1)/wl/%.o,$(WL_SRCS)) \
              $$(patsubst %.cpp,$(B)/$(1)/rt/%.o,$(RT_SRCS))
 $(B)/$(1)/simcheck: $$(OBJS_$(1))
-	$(CXX) -rdynamic -o $$@ $$^ -ldl -lpthread
+	$(CXX) -rdynamic $$(LINK_$(1)) -o $$@ $$^ -ldl -lpthread
 -include $$(OBJS_$(1):.o=.d)
 endef
 $(foreach v,$(VARIANTS),$(eval $(call VARIANT_RULES,$(v))))
